@@ -49,5 +49,5 @@ Proof.
     destruct (to_ >? from_).
     + rewrite lanes4_of_wrap. do 2 f_equal. wrap_eq.
     + rewrite lanes4_of_wrap. do 2 f_equal. wrap_eq.
-  - unfold abs_jump_rdx. rewrite <- lanes8_of_wrap. reflexivity.
+  - unfold abs_jump_rip. rewrite <- lanes8_of_wrap. reflexivity.
 Qed.
